@@ -5,11 +5,16 @@
            recursion of Spec/ODESeries.v computes a formal solution
    Part 3  T10.2 the unroll and padded-scan models return the derivatives of
            the formal solution (every polynomial field, order k >= 1, num)
-   Part 4  polynomial arithmetic of the recursive-JVP model is sound for
-           series composition; T10.3 the recursive-JVP model is correct for
-           autonomous fields
-   Part 5  refutations (time-dependent witness) for via_jvp and doubling
-   Part 6  doubling *)
+   Part 4  polynomial arithmetic of the recursive-JVP model is sound for series
+           composition; T10.3 the recursive-JVP model is correct for autonomous
+           fields; T10.5 agreement; T10.6 the repaired recursion (t as one more
+           variable with tangent 1) is correct for every field
+   Part 6  first-order Taylor expansion of a composition modulo tau^(2 deg);
+           T10.4 the Newton-doubling model is correct for autonomous
+           first-order fields
+   Part 7  ravel / unravel bookkeeping of the pytree wrapper
+   Part 5  refutations at Qc (time-dependent witness) for via_jvp and doubling;
+           examples showing that the hypotheses are satisfiable *)
 From Coq Require Import List Arith Lia Bool ZArith QArith Qcanon Field Ring Setoid Morphisms.
 From PD Require Import Base.Field Base.Matrix Model.Poly Base.Series Spec.ODESeries Model.Jet.
 Import ListNotations.
